@@ -82,6 +82,14 @@ func Evolve(p *Program, r *core.Rand) []string {
 						// same container kind, other element type ("widened")
 						nt = &TypeRef{Kind: rt.Kind, Elem: &TypeRef{Kind: TBase, Base: BaseKind(r.Range(1, 8))}}
 					}
+					if rt.Kind == TMap && r.Bool() {
+						// a map of which exactly one side is retyped
+						if r.Bool() {
+							nt = &TypeRef{Kind: TMap, Key: rt.Key, Elem: &TypeRef{Kind: TBase, Base: BaseKind(r.Range(1, 8))}}
+						} else {
+							nt = &TypeRef{Kind: TMap, Key: &TypeRef{Kind: TBase, Base: []BaseKind{BI8, BI16, BI32, BI64, BString, BBool, BDouble}[r.Intn(7)]}, Elem: rt.Elem}
+						}
+					}
 					fl.Type = nt
 					s.Fields[i] = &fl
 					log = append(log, s.Name+": change type of "+fl.Name)
